@@ -49,7 +49,7 @@ SCRATCH = Path(os.environ.get("C01_SCRATCH", "/tmp/agents/c01"))
 
 XHTML = "{http://www.w3.org/1999/xhtml}"
 XFORMS = "{http://www.w3.org/2002/xforms}"
-ORACLE_OF = {"F5": {"not-wellformed"}, "F2b": {"bad-namespace-declaration"}, "F3x": {"bad-namespace-declaration"}}
+ORACLE_OF = {"F5": {"not-wellformed"}}
 
 
 # ------------------------------------------------------------------ independent skeleton (ElementTree)
@@ -229,8 +229,12 @@ def fields_of(pyx: dict):
         if not isinstance(att, dict) or not all(isinstance(v, str) for v in att.values()):
             return None
         f["attribute"] = [[str(k), v] for k, v in att.items()]
-    if pyx.get("instance"):
-        return None  # instance:: attributes on the survey root: not modelled
+    inst = pyx.get("instance")
+    if inst:
+        # settings-level instance:: columns: attributes of the primary instance root (values pass insert_xpaths)
+        if not isinstance(inst, dict) or not all(isinstance(v, str) and "${" not in v for v in inst.values()):
+            return None
+        f["instance"] = [[str(k), v] for k, v in inst.items()]
     f["entity_features"] = bool(pyx.get("entity_features"))
     return f
 
@@ -498,10 +502,6 @@ def dom_cases(ctx, n):
                     if typo and not v["ok"]:
                         ctx.fail(Failure("known-shape", f"F5: accepted DOM with name {typo[0]!r} is not well-formed", {"dom": tree},
                                          extra={"class": "F5", "oracle": "not-wellformed", "witness": typo[0], "compact": text}))
-                    elif (xel or reserved_uri(tree)) and v["ok"] and v["bound"] and not v["declsOk"]:
-                        cls = "F3x" if xel else "F2b"
-                        ctx.fail(Failure("known-shape", f"{cls}: accepted DOM with an illegal use of a reserved namespace name/prefix", {"dom": tree},
-                                         extra={"class": cls, "oracle": "bad-namespace-declaration", "witness": (xel or ["reserved uri"])[0], "compact": text}))
                     else:
                         ctx.fail(Failure("validated-dom-not-wellformed", "validate_xml_document accepts a DOM whose serialisation is not "
                                          "well-formed / namespace-valid", {"dom": tree}, extra={"text": text, "pretty": pretty}))
@@ -605,8 +605,6 @@ def _m(cls):
 
 MATCHERS = {
     "F5-ncname-typo-literal": _m("F5"),
-    "F2b-reserved-namespace-uri": _m("F2b"),
-    "F3x-xmlns-prefixed-element": _m("F3x"),
 }
 
 
